@@ -57,22 +57,20 @@ def _return_term(fn, params):
     body = K.body_nodoc(fn)
     env = {}
     ev = SymEval(env)
-    for st in body[:-1]:
-        if isinstance(st, ast.Assign) and len(st.targets) == 1 and isinstance(st.targets[0], ast.Name):
-            ev.env[st.targets[0].id] = ev.ev(st.value)
-        else:
-            raise NotSymbolic(f"statement {norm(st)}")
     if not body or not isinstance(body[-1], ast.Return) or body[-1].value is None:
         raise NotSymbolic("no return expression")
     names = [a.arg for a in fn.args.args[1:]]
     defaults = dict(zip(names[len(names) - len(fn.args.defaults):], fn.args.defaults))
     for i, n_ in enumerate(names):
-        if n_ in ev.env:
-            continue
         if i < len(params):
             ev.env[n_] = Term.sym(params[i])
         elif n_ in defaults:
             ev.env[n_] = ev.ev(defaults[n_])   # parameter not supplied by the caller: its default applies
+    for st in body[:-1]:
+        if isinstance(st, ast.Assign) and len(st.targets) == 1 and isinstance(st.targets[0], ast.Name):
+            ev.env[st.targets[0].id] = ev.ev(st.value)
+        else:
+            raise NotSymbolic(f"statement {norm(st)}")
     return ev.ev(body[-1].value)
 
 
